@@ -22,8 +22,9 @@ MUT_CALLS = {"create_group", "require_group"}
 
 
 class Den:
-    def __init__(self, fn):
+    def __init__(self, fn, project=None):
         self.fn = fn
+        self.p = project
         self.node = fn.node
         self.sa = single_assignments(fn.node)
         params = fn.params[1:] if fn.kind in ("classmethod", "method") else list(fn.params)
@@ -153,6 +154,9 @@ class Den:
             return self.paths(e.body) | self.paths(e.orelse)
         if isinstance(e, ast.Call):
             f = e.func
+            acc = self._accessor(e)
+            if acc is not None:
+                return self._child(self.paths(acc[0]), acc[1])
             if isinstance(f, ast.Attribute):
                 base = chain(f.value)
                 if f.attr in ("fetch_handle", "write_entity") and base and base[0] in ("H5Writer", "cls") and len(e.args) >= 2:
@@ -166,6 +170,43 @@ class Den:
                         return self._child(self.paths(f.value), e.args[0])
                     return self.paths(f.value)
         return set()
+
+    def _accessor(self, call):
+        """(handle arg, key arg) when `call` goes to a package function that does nothing but hand out the child `handle[key]`
+        (creating it when missing): every return is handle[key] / handle.get(key) / handle.create_group(key) / require_group(key)."""
+        if self.p is None:
+            return None
+        f = call.func
+        target = None
+        if isinstance(f, ast.Name):
+            r = self.p.resolve_name(self.fn.module, f.id)
+            if r and r[0] == "func":
+                target = r[1]
+        elif isinstance(f, ast.Attribute) and isinstance(f.value, ast.Name) and f.value.id in ("cls", "self", "H5Writer", "H5Reader") and self.fn.cls is not None:
+            m = self.fn.cls.lookup(f.attr)
+            if m and m[1] == "method":
+                target = m[2]
+        if target is None:
+            return None
+        ps = target.params[1:] if target.kind in ("method", "classmethod") else target.params
+        if len(ps) != 2 or len(call.args) != 2:
+            return None
+        h, k = ps
+        rets = [r for r in ast.walk(target.node) if isinstance(r, ast.Return) and r.value is not None]
+        if not rets:
+            return None
+        for r in rets:
+            v = r.value
+            ok = (isinstance(v, ast.Subscript) and unparse(v.value) == h and unparse(v.slice) == k) or (
+                isinstance(v, ast.Call) and isinstance(v.func, ast.Attribute) and unparse(v.func.value) == h
+                and v.func.attr in ("get", "create_group", "require_group") and v.args and unparse(v.args[0]) == k)
+            if not ok:
+                return None
+        # nothing else is done to the handle
+        for n in ast.walk(target.node):
+            if isinstance(n, (ast.Delete,)) or (isinstance(n, ast.Assign) and any(isinstance(t, ast.Subscript) for t in n.targets)):
+                return None
+        return call.args[0], call.args[1]
 
     def _child(self, base_paths, key) -> set:
         out = set()
